@@ -24,7 +24,7 @@ func memLimitMB() int {
 	if v, err := strconv.Atoi(os.Getenv("VERIF_MEM_LIMIT_MB")); err == nil && v > 0 {
 		return v
 	}
-	return 6000
+	return 20000
 }
 
 func startResourceWatchdog() {
